@@ -71,7 +71,8 @@ pub struct StCtx {
     pub spurious_fired: u64,
     /// crash snapshots: (pointer, len) of the arena memory to copy at every step
     pub snap_src: Option<(usize, usize)>,
-    pub snaps: Vec<(u64, Vec<u8>)>,
+    pub snaps: Vec<(u64, Vec<u8>, (u32, u8, u8))>,
+    pub last_access: (u32, u8, u8),
     pub snap_every: u64,
     /// plain writes by the arena observed since last cleared: (addr, len)
     pub plain: Vec<(usize, usize)>,
@@ -86,6 +87,7 @@ impl StCtx {
     }
     pub fn begin_call(&mut self) {
         self.step_in_call = 0;
+        self.last_access = (0, 0, 0);
         self.plain.clear();
     }
     fn allowed(&self, addr: usize, width: usize) -> bool {
@@ -147,7 +149,8 @@ impl Hook for SimHook {
                     if st.total_steps % every == 0 {
                         let bytes = unsafe { std::slice::from_raw_parts(p as *const u8, l) }.to_vec();
                         let step = st.total_steps;
-                        st.snaps.push((step, bytes));
+                        let la = st.last_access;
+                        st.snaps.push((step, bytes, la));
                     }
                 }
                 if a.kind == Kind::CasWeak {
@@ -176,6 +179,7 @@ impl Hook for SimHook {
                 let n = st.norm(a.addr);
                 st.trace_hash = hash_add(hash_add(st.trace_hash, n), ((a.line as u64) << 8) | ((kind_id(a.kind) as u64) << 2) | outcome as u64);
                 *st.probes.entry((a.line, kind_id(a.kind), outcome)).or_insert(0) += 1;
+                st.last_access = (a.line, kind_id(a.kind), outcome);
             }),
             Mode::Mt(t) => crate::mt::after(t, a),
         }
